@@ -4,7 +4,7 @@ COQ_TARGETS = ["Props/C14.vo"]
 AREA = "queue"
 EXTRACT_V = "Queue/Extract.v"
 GO_CMD = "hx-queue"
-NO_MODEL_RUNS = ("concurrent",)   # interleaving-dependent: only the monitor (multiset law) applies
+NO_MODEL_RUNS = ("concurrent", "wait")   # interleaving-dependent: only the monitor (multiset law) applies
 RULE = ("operation sequences (push / try-pop / pop with a finished context) over messages of all "
         "body kinds with 5 filter families incl. reject-all and the two consumer filters; "
         "non-trivial = the case contains a pop whose filter rejects at least one queued message "
@@ -30,11 +30,13 @@ def runs(tier, seed):
         r += [("gen%d" % i, ["gen", "-seed", str(seed * 1000 + i), "-n", "4000"]) for i in range(12)]
         r += [("concurrent", ["concurrent", "-seed", str(seed), "-n", "300"])]
         r += [("consumer%d" % i, ["consumer", "-seed", str(seed * 10 + i), "-n", "1500"]) for i in range(4)]
+        r += [("wait", ["wait", "-seed", str(seed), "-n", "1500"])]
         return r
     return [("prior", ["prior"]), ("exhaustive", ["exhaustive"]),
             ("gen", ["gen", "-seed", str(seed), "-n", "1500"]),
             ("concurrent", ["concurrent", "-seed", str(seed), "-n", "30"]),
-            ("consumer", ["consumer", "-seed", str(seed), "-n", "300"])]
+            ("consumer", ["consumer", "-seed", str(seed), "-n", "300"]),
+            ("wait", ["wait", "-seed", str(seed), "-n", "150"])]   # a blocking pop that has to wait: monitor only
 
 
 def search_runs(tier, seed):
